@@ -74,7 +74,7 @@ def flag_system(rng, system, phys):
 
 def make_job(ctx, rng, kind, size1=False, integer_state=False):
     desc, phys, info = L.gen_system(rng, kind=kind, max_cells=1 if size1 else ctx.n(6, 16), chem_p=0.5, max_order=2 if integer_state else 4,
-                                    non_growing=integer_state)
+                                    non_growing=integer_state, min_env=(2 if (size1 and rng.random() < 0.6) else 1))
     system = L.build_system(desc)
     chem, mode = flag_system(rng, system, phys)
     us = ("µm", "s", "molecule") if integer_state else L.rand_sys(rng)
@@ -438,7 +438,7 @@ def run(ctx):
     nsys = ctx.n(36, 500)
     jobs = []
     for k in range(nsys):
-        if C1.out_of_time(ctx):
+        if C1.out_of_time(ctx, -5 if ctx.tier == "quick" else 0):
             ctx.notes.append("stopped generating after %d systems (time budget)" % k)
             break
         kind = "grid" if k % 2 == 0 else "graph"
